@@ -288,7 +288,7 @@ func (g *gen) declType(form int) *Ty {
 						t.EmbPtr = true
 					}
 				}
-			} else if g.chance(12, "embedself") {
+			} else if g.chance(20, "embedself") {
 				u.Fields = append(u.Fields, Field{Name: name, T: ptrTo(t), Embedded: true})
 				t.Rec, t.SelfEmb, t.EmbPtr = true, true, true
 				g.feat("embedded_self_pointer")
